@@ -41,6 +41,7 @@ type Case struct {
 	Cap     int     `json:"cap"`
 	Width   int     `json:"width"`
 	Hostile bool    `json:"hostile"`
+	Quiet   bool    `json:"quiet"` // the fair drain tail ended with nothing moving
 	Events  []Event `json:"events"`
 	Coq     string  `json:"coq"`
 }
@@ -296,16 +297,106 @@ func generate(rng *vh.Rng, hostile bool) Case {
 		if crashed {
 			break
 		}
+		if e.E == "db" && e.Acc != nil && !*e.Acc && len(answered) > 0 && answered[len(answered)-1].id == e.Msg.RspTo {
+			// the port refused the reply: the request is still outstanding
+			pending = append(pending, answered[len(answered)-1])
+			answered = answered[:len(answered)-1]
+		}
 		if e.E == "rb" && e.Got != nil {
 			pending = append(pending, outstanding{id: e.Got.ID, read: e.Got.Kind == "KRead",
 				addr: e.Got.Addr, size: int(e.Got.Size)})
 		}
 	}
+	// fair drain tail: answer everything outstanding, tick, retrieve everything, until nothing moves
+	crashedTail := false
+	step := func(e Event) *Event {
+		if e.Msg != nil {
+			fixMsg(e.Msg)
+		}
+		if r.apply(&e) {
+			crashedTail = true
+		}
+		c.Events = append(c.Events, e)
+		return &c.Events[len(c.Events)-1]
+	}
+	for round := 0; round < 12 && !crashedTail && len(c.Events) > 0 && !c.Events[len(c.Events)-1].Crash; round++ {
+		moved := false
+		for k := 0; k < 2*c.Width+1 && !crashedTail; k++ {
+			e := step(Event{E: "rb"})
+			if e.Got == nil {
+				break
+			}
+			moved = true
+			pending = append(pending, outstanding{id: e.Got.ID, read: e.Got.Kind == "KRead", addr: e.Got.Addr, size: int(e.Got.Size)})
+		}
+		for len(pending) > 0 && !crashedTail {
+			o := pending[0]
+			m := vh.Msg{Src: pBottomUnit, Dst: pBot, RspTo: o.id, Kind: "KWriteDone"}
+			if o.read {
+				m.Kind = "KDataReady"
+				m.Data = payload(o.addr, o.size)
+			}
+			e := step(Event{E: "db", Msg: &m})
+			if e.Acc == nil || !*e.Acc {
+				break
+			}
+			pending = pending[1:]
+			moved = true
+		}
+		for k := 0; k < 3 && !crashedTail; k++ {
+			e := step(Event{E: "tick"})
+			if e.Progress != nil && *e.Progress {
+				moved = true
+			}
+		}
+		for k := 0; k < 2*c.Width+1 && !crashedTail; k++ {
+			e := step(Event{E: "rt"})
+			if e.Got == nil {
+				break
+			}
+			moved = true
+		}
+		e := step(Event{E: "rc"})
+		if e.Got != nil {
+			moved = true
+		}
+		if !moved {
+			break
+		}
+	}
+	c.Quiet = quietTail(c.Events)
 	c.Coq = caseCoq(&c)
 	return c
 }
 
 func fixMsg(m *vh.Msg) { m.Fix() }
+
+// quietTail recognises a history that ends with one full drain round in which nothing moved:
+// empty retrievals on all three ports and three ticks without progress.
+func quietTail(ev []Event) bool {
+	if len(ev) < 6 {
+		return false
+	}
+	t := ev[len(ev)-6:]
+	ticks, rb, rt, rc := 0, false, false, false
+	for _, e := range t {
+		switch {
+		case e.Crash:
+			return false
+		case e.E == "tick" && e.Progress != nil && !*e.Progress:
+			ticks++
+		case e.E == "rb" && e.None:
+			rb = true
+		case e.E == "rt" && e.None:
+			rt = true
+		case e.E == "rc" && e.None:
+			rc = true
+		default:
+			return false
+		}
+	}
+	return ticks == 3 && rb && rt && rc
+}
 
 // replay runs stored events (observations are recomputed).
 func replay(c Case) Case {
@@ -326,6 +417,7 @@ func replay(c Case) Case {
 			break
 		}
 	}
+	out.Quiet = quietTail(out.Events)
 	out.Coq = caseCoq(&out)
 	return out
 }
